@@ -7,7 +7,8 @@
          Strict: pass 1 (rules …, last added `UploadFile`)         → Normal
                  pass 2 (CacheControl, Complexity, `DepthCalculate`) → Inline
          Fast:   one pass (…, last added `DepthCalculate`)          → Inline
-      (`VisitorCons::mode` is the mode of the visitor added LAST);
+      (`VisitorCons::mode` is the mode of the visitor added LAST) — this table is read from the
+      source by srcfacts/gen.py (`AGV.Gen.CostFacts`);
     * selections iterated by `schema.rs::check_recursive_depth` and `check_max_directives`
       (both stop at the first error: the model threads an `ok` flag);
     * selections iterated / field pairs compared by `OverlappingFieldsCanBeMerged`
@@ -20,6 +21,7 @@
   Not modelled: work inside the parser (pest), per-visit work of the individual rules, time.
 -/
 import AGV.Core.Types
+import AGV.Gen.CostFacts
 
 namespace AGV.Model.Cost
 open AGV.Core
@@ -272,6 +274,17 @@ def Counters.toList (k : Counters) : List Nat :=
 /-- selection visits of all walkers (the work the property bounds) -/
 def Counters.visits (k : Counters) : Nat := k.selNormal + k.selInline + k.depthSel + k.dirsSel
 
+/-- the validation passes of a mode, from the source (`check_rules`): `true` = inline mode -/
+def passModes (strict : Bool) : List Bool :=
+  if strict then Gen.CostFacts.strictPasses else Gen.CostFacts.fastPasses
+
+def countNormal (ms : List Bool) : Nat := (ms.filter fun m => !m).length
+def countInline (ms : List Bool) : Nat := (ms.filter fun m => m).length
+
+/-- passes containing `OverlappingFieldsCanBeMerged` (the extractor guarantees they are normal-mode) -/
+def overlapPasses (strict : Bool) : Nat :=
+  ((if strict then Gen.CostFacts.strictOverlap else Gen.CostFacts.fastOverlap).filter fun m => m).length
+
 def inlinePass (D : Defects) (c : Config) (d : Doc) : Nat :=
   if D.inlineNoMemo then inlinePassPinned c d else inlinePassMemo c d
 
@@ -286,12 +299,12 @@ def run (D : Defects) (c : Config) (d : Doc) : Stage × Counters :=
       | some lim => if D.limitsNoMemo then dirsPinned c lim d else (limitMemo d, (dirsPinned c lim d).2)
     if !md.2 then (.directives, { depthSel := dp.1, dirsSel := md.1 })
     else
+      let ms := passModes c.strict
       let ov := overlapWork c d
-      if c.strict then
-        (.done, { passNormal := 1, passInline := 1, selNormal := normalPass c d, selInline := inlinePass D c d,
-                  depthSel := dp.1, dirsSel := md.1, ovSel := ov.1, ovCmp := ov.2 })
-      else
-        (.done, { passInline := 1, selInline := inlinePass D c d, depthSel := dp.1, dirsSel := md.1 })
+      let k := overlapPasses c.strict
+      (.done, { passNormal := countNormal ms, passInline := countInline ms,
+                selNormal := countNormal ms * normalPass c d, selInline := countInline ms * inlinePass D c d,
+                depthSel := dp.1, dirsSel := md.1, ovSel := k * ov.1, ovCmp := k * ov.2 })
 
 /-- the visits of a request -/
 def visits (D : Defects) (c : Config) (d : Doc) : Nat := (run D c d).2.visits
